@@ -306,8 +306,8 @@ def audit(prop, theorems):
         if "Closed under the global context" in body:
             res[name] = []
         else:
-            axs = re.findall(r"^([A-Za-z_][\w.']*)\s*:", body, re.M)
-            res[name] = axs
+            axs = re.findall(r"^([A-Za-z_][\w.']*)[ \t]*(?::|$)", body, re.M)
+            res[name] = [a for a in axs if a != "Axioms"]
     for t in theorems:
         if t not in res:
             raise CheckError("audit: no assumptions printed for %s" % t)
